@@ -60,6 +60,7 @@ class CohGen:
             class_enum_default=(target == 'matlab'),    # D40 (pybind): default value of the class's own enum type
             typedefs=True,
             serialize_p=0.0,            # probability that a class declares the serialize() marker
+            partly_qualified_enum_returns=True,   # (matlab) enum return types spelled relative to their namespace
             same_arity_overloads=True,  # (matlab) overloads of equal arity told apart by the type test of a parameter
             keyword_params=0.06,        # (pybind) probability that a parameter is named like a Python keyword
             twin_signatures=0.2,        # probability that a callable reuses the parameter list of an earlier one
@@ -219,7 +220,15 @@ class CohGen:
         if x < 0.7 and self.f['enums'] and (not in_pair or self.f['enum_in_pair']):
             es = self.visible_enums()
             if es:
-                return self.enum_type(r.choice(es))
+                e = r.choice(es)
+                t = self.enum_type(e)
+                if self.target == 'matlab' and self.f['partly_qualified_enum_returns'] and e['cls'] is None and e['ns'] and \
+                        self.cur_class is not None and e['ns'] == self.cur_ns and r.random() < 0.4:
+                    # a *return* type written the way C++ allows inside the enum's namespace: unqualified or qualified
+                    # by the inner namespaces only (`Level level() const;` in namespace arm)
+                    k = r.randint(1, len(e['ns']))
+                    t = S.T(t.name, tuple(e['ns'][k:]), (), t.const, t.marker)
+                return t
         cs = self.visible_classes()
         if in_pair:
             cs = [(c, t) for c, t in cs if not t.args]     # pair halves are plain (non-templated) types in the grammar
@@ -504,14 +513,16 @@ class CohGen:
                 nm = self.lname()
                 members.append(S.Prop(t, nm))
             elif k == 'op':
-                op = r.choice(['+', '-', '*', '==', '<', '[]', '()', 'u-'])
-                if any(m.k == 'Op' and m.op == op.replace('u', '') for m in members):
-                    continue
+                op = r.choice(['+', '-', '*', '==', '<', '[]', '()', 'u-', 'u+'])
+                if any(m.k == 'Op' and m.op == op.replace('u', '') and (not m.args) == op.startswith('u') for m in members):
+                    continue        # (the unary and the binary form of one symbol may both be declared)
                 me = S.T(name, self.cur_ns) if not tmpl else S.T('This')
                 if tmpl:
                     continue
-                if op == 'u-':
-                    members.append(S.Op('-', me, ()))
+                if op in ('u-', 'u+'):
+                    if any(m.k == 'Op' and m.op == op[1] and not m.args for m in members):
+                        continue
+                    members.append(S.Op(op[1], me, ()))
                 elif op in ('[]', '()'):
                     members.append(S.Op(op, S.T(r.choice(['int', 'double'])), (S.Arg(S.T(r.choice(['int', 'size_t'])), self.lname()),)))
                 else:
